@@ -12,6 +12,7 @@ type mgrEngine struct {
 	inner  pt.TableEngine
 	cbs    *pt.TableEngineCallbacks
 	probes func(method string, err error)
+	voidErr error
 }
 
 func (e *mgrEngine) eng() pt.TableEngine {
@@ -59,9 +60,18 @@ func (e *mgrEngine) PauseTable() error     { return e.m.PauseTable(e.id) }
 func (e *mgrEngine) CloseTable() error     { return e.m.CloseTable(e.id) }
 func (e *mgrEngine) StartTableGame() error { return e.m.StartTableGame(e.id) }
 func (e *mgrEngine) UpdateBlind(level int, ante, dealer, sb, bb int64) {
-	e.m.UpdateBlind(e.id, level, ante, dealer, sb, bb)
+	e.voidErr = e.m.UpdateBlind(e.id, level, ante, dealer, sb, bb)
 }
-func (e *mgrEngine) SetUpTableGame(gc int, parts map[string]int) { e.m.SetUpTableGame(e.id, gc, parts) }
+func (e *mgrEngine) SetUpTableGame(gc int, parts map[string]int) {
+	e.voidErr = e.m.SetUpTableGame(e.id, gc, parts)
+}
+
+// takeVoidErr: what the manager answered to the last call whose engine counterpart returns nothing
+func (e *mgrEngine) takeVoidErr() error {
+	err := e.voidErr
+	e.voidErr = nil
+	return err
+}
 func (e *mgrEngine) UpdateTablePlayers(j []pt.JoinPlayer, l []string) (map[string]int, error) {
 	return e.m.UpdateTablePlayers(e.id, j, l)
 }
